@@ -46,7 +46,10 @@ def _main_check(ctx: Ctx) -> None:
         if isinstance(n, ast.AugAssign) and isinstance(n.target, ast.Name) and f"{m}.time" in src(n.value):
             acc, aug = n.target.id, n
     if acc is None:
-        raise AnalysisError(f"{FN}: running position accumulator not found at the top of the message loop")
+        ctx.require("ACCUM", f"{FN}: every message advances the running position by its scaled time", 0, 1, function=FN,
+                    construct="the loader never advances its running position by a message's time",
+                    message=f"no `position += {m}.time * factor` at the top of the message loop: every event of a track is placed at tick 0", file=fi.file, node=msg_loop)
+        return
     defs = [n for n in ast.walk(fi.node) if (isinstance(n, ast.Assign) and any(isinstance(t, ast.Name) and t.id == acc for t in n.targets))
             or (isinstance(n, ast.AugAssign) and isinstance(n.target, ast.Name) and n.target.id == acc)]
     zero = [d for d in defs if isinstance(d, ast.Assign)]
@@ -124,7 +127,11 @@ def _main_check(ctx: Ctx) -> None:
             if T_ == "TIME_SIGNATURE" and meta is None:
                 meta = call_method(c_)[0].id
     if cur is None or meta is None:
-        raise AnalysisError(f"{FN}: current/meta sequence variables not found")
+        for nm_, T_ in ((cur, "NOTE_ON"), (meta, "TIME_SIGNATURE")):
+            ctx.require("ROUTE", f"{FN}: {T_} events of the file become {T_} events of a sequence", 0 if nm_ is None else 1, 1, function=FN,
+                        construct=f"the loader never adds a {T_} event to a sequence", message=f"no `add_absolute_message(Message(message_type={T_}, ...))` in the message loop",
+                        file=fi.file, node=msg_loop)
+        return
     expect = {"NOTE_ON": cur, "NOTE_OFF": cur, "TIME_SIGNATURE": meta, "KEY_SIGNATURE": meta, "CONTROL_CHANGE": meta, "PROGRAM_CHANGE": cur}
     fields = {"NOTE_ON": ("channel", "note", "velocity"), "NOTE_OFF": ("channel", "note"), "TIME_SIGNATURE": ("numerator", "denominator"),
               "KEY_SIGNATURE": ("key",), "CONTROL_CHANGE": ("control",), "PROGRAM_CHANGE": ("program",)}
